@@ -20,7 +20,8 @@ from ..anf import Rat, sym
 from ..guards import (G, TRUE, FALSE, g_and, g_not, g_or, g_equiv, g_implies, g_sat, g_disjoint, compare, canon_sign, OPS,
                       count_true, g_vars)
 from ..gvn import Frame, Obj, PW, Vec, cases_of, veq, mk_pw, Unsupported, vkey
-from .common import RuleCtx, _short, split_at_loop, stored_names, sign_set_name
+from .common import section, RuleCtx, _short, split_at_loop, stored_names, sign_set_name
+from ..intervals import single_atom
 
 C = Rat.const
 
@@ -40,9 +41,9 @@ def run(ctx):
     res.rule("S-dtype", "no score function stores a per-point error into an array that inherits the dtype of one of its arguments (integer knees / expected points would truncate it)")
     from . import detectors as _d
     _d.dtype_guard(rc, "S-dtype", ["evaluation"])
-    _cm(rc)
-    _scores(rc)
-    _errors(rc)
+    section(rc, _cm)
+    section(rc, _scores)
+    section(rc, _errors)
     res.assumptions += ["real-number reading", "numpy reductions per kverif.npmodel", "argmin returns an index of the minimum"]
     res.not_decided += ["ranges [0,1] / [-1,1] (corollaries of S1-S4)", "greedy-order semantics beyond S1/S3"]
     from .common import hidden_state as _hidden_state
@@ -160,13 +161,18 @@ def _cm(rc: RuleCtx):
     # tp co-occurs with used.append(idx) under idx not in used
     apps = [e for e in out.events if e.kind in ("append", "add")]          # the claimed knees: a list or a set
     used_ok = False
+    used_notin = None
     for e in apps:
         idx = e.args[0]
+        live_ = [v_ for g_, v_ in cases_of(idx) if g_sat(g_and(g_, e.guard))]
+        if len(live_) == 1:
+            idx = live_[0]              # (a value-or-None helper result: the value on the paths where the claim happens)
         if g_equiv(e.guard, g_tp) and isinstance(idx, Rat):
             notin = g_not(G("atom", ("in", idx.key, vkey(benv[e.target])))) if e.target in benv else None
             if notin is not None and g_implies(g_tp, notin):
                 used_ok = True
                 used_idx = idx
+                used_notin = notin
     if not used_ok:
         # the claimed knees kept as one flag per knee: `used = np.zeros(K, dtype=bool)`, tested by `used[idx]`, claimed by `used[idx] = True`
         fr_ = Frame(ev, fi, 0)
@@ -185,6 +191,15 @@ def _cm(rc: RuleCtx):
             if g_equiv(e.guard, g_tp) and g_implies(g_tp, g_not(flag)) and not resets:
                 used_ok = True
                 used_idx = idx
+                used_notin = g_not(flag)
+    used_idx_raw = used_idx if used_ok else None
+    if used_ok and used_idx is not None:
+        # claimed by curve index knees[j] instead of by position j: the same claim for a knee list without repeated entries
+        a_ = single_atom(used_idx)
+        if a_ is not None and a_.name == "at" and len(a_.args) == 2 and a_.args[0].equals(knees):
+            used_idx = a_.args[1]
+            if "the knee indices are distinct (a knee claimed by its curve index is a knee claimed by its position)" not in res.assumptions:
+                res.assumptions.append("the knee indices are distinct (a knee claimed by its curve index is a knee claimed by its position)")
     if used_ok:
         res.ok("S1", "evaluation.cm:one-to-one", "tp += 1 only for a knee not in the used list, which then receives it => TP <= |K|")
     else:
@@ -212,6 +227,16 @@ def _cm(rc: RuleCtx):
     elif signs in (OPS["<="], OPS["<"]):
         res.ok("S3", "evaluation.cm:match", f"nearest knee within t: comparator {sign_set_name(signs)}")
         res.sample({"function": "evaluation.cm", "tp_guard": str(g_tp)})
+        # ... and nothing else decides a match: tp exactly when the nearest knee is within t and not yet claimed
+        within = [q_ for q_ in (d_at - t, (anf.opaque("at", D, used_idx_raw, array=False) - t) if used_idx_raw is not None else None)
+                  if q_ is not None and _sign_fact(g_tp, q_) is not None]
+        extra = used_ok and used_notin is not None and within and not g_equiv(g_tp, g_and(canon_sign(within[0], signs), used_notin))
+        if extra and used_ok:
+            res.violation("S1", mod, fi.name, loop,
+                          "a true positive needs more than 'the nearest knee is within t and not yet claimed': an expected point with a free knee in reach can be counted as a miss",
+                          _short(g_tp, 300), "tp iff distance <= t and the knee is not yet used", construct="cm extra condition")
+        elif used_ok:
+            res.ok("S1", "evaluation.cm:exact", "tp exactly when the nearest knee is within t and not yet claimed (no further condition)")
     else:
         res.violation("S3", mod, fi.name, loop, f"match comparator accepts signs {sign_set_name(signs)}; 'within t' needs <= or <",
                       sign_set_name(signs), "<= or <", construct="cm match comparator")
